@@ -1,6 +1,6 @@
 (* C18 — property theorems (statements only; proofs live in Proofs*.v). *)
 From Coq Require Import List ZArith NArith QArith Bool.
-Require Import QV.C18.Model QV.C18.Spec QV.C18.Corr QV.C18.Proofs QV.C18.Proofs_frame_awg QV.C18.Proofs_frame_dac QV.C18.Proofs_obs QV.C18.Proofs_dev QV.C18.Proofs_perdev QV.C18.Proofs_perdev_dac QV.C18.Proofs_post.
+Require Import QV.C18.Model QV.C18.Spec QV.C18.Corr QV.C18.Proofs QV.C18.Proofs_frame_awg QV.C18.Proofs_frame_dac QV.C18.Proofs_obs QV.C18.Proofs_dev QV.C18.Proofs_perdev QV.C18.Proofs_perdev_dac QV.C18.Proofs_post QV.C18.Proofs_r5.
 Import ListNotations.
 
 (* Generator side of the routing invariant, for arbitrary finite histories of operations (calls that raise included)
@@ -396,3 +396,26 @@ Theorem C18_check_framed_example :
   /\ check_framed (CHist post_example_dl 2 (model_steps (dims_of post_example_dl) 2 2 init_state post_example_history)) = true.
 Proof. exact post_example. Qed.
 Print Assumptions C18_check_framed_example.
+
+(* ================================================================================================================ *)
+(* Round 5 (clause audit): "arming ... disarms ALL OTHER generators".  C18_arm_awg only speaks about wired generators
+   (Spec.awg_arm_post says nothing about a generator outside known_awgs).  Under the guard the clause holds for EVERY
+   generator id, wired or not: after arm_program(name) a generator is armed with the name iff the program uses one of its
+   channels, and is not armed at all otherwise (an un-wired generator cannot be armed: armed => held => used => wired).
+   Without the guard this is false for un-wired generators (they keep their state: part of C18-rewire-stale, see
+   C18_arm_awg_covered / C18_arm_by_record). *)
+Theorem C18_arm_awg_exact : forall dm h name st',
+  guard_C18_rewire dm init_state h = true ->
+  arm_program (run dm init_state h) name = (st', None) ->
+  exists r, lookup name (regs st') = Some r
+            /\ forall a, a_armed (awg_of st' a) = if uses_awg (chmap st') (r_chans r) a then Some name else None.
+Proof. exact arm_exact_awg. Qed.
+Print Assumptions C18_arm_awg_exact.
+
+Theorem C18_arm_awg_exact_example :
+  guard_C18_rewire rewire_dims init_state arm_exact_history = true
+  /\ snd (arm_program (run rewire_dims init_state arm_exact_history) 0%N) = None
+  /\ map (fun a => a_armed (awg_of (fst (arm_program (run rewire_dims init_state arm_exact_history) 0%N)) a)) [0%N; 1%N; 7%N]
+     = [Some 0%N; None; None].
+Proof. exact arm_exact_example. Qed.
+Print Assumptions C18_arm_awg_exact_example.
